@@ -35,6 +35,28 @@ theorem add (v I a b : ℝ) :
     rw [← Real.exp_add]; congr 1; ring
   rw [this]; ring
 
+/-- **Recording is transparent on a spike-free, constant-input stretch**: the event loop handles a
+record event by advancing the membrane to the record time; cutting a stretch of total length
+`ds.sum` into any number of such advances (any recording interval, any phase) ends at the same
+voltage as one advance over the whole stretch — so the voltage found at the next input change or
+spike prediction does not depend on `record_dt`. -/
+theorem record_transparent (v I : ℝ) (ds : List ℝ) :
+    ds.foldl (fun u d => advance tau r v_leak v_threshold u I d) v
+      = advance tau r v_leak v_threshold v I ds.sum := by
+  induction ds generalizing v with
+  | nil => simp [zero]
+  | cons d rest ih =>
+    simp only [List.foldl_cons, List.sum_cons]
+    rw [ih, ← add]
+
+/-- … and every recorded voltage is the value of the exact solution at its own record time,
+whatever was recorded before: after the records at offsets `ds₁` the next record `d` later shows
+`advance v I (ds₁.sum + d)`. -/
+theorem recorded_value (v I : ℝ) (ds : List ℝ) (d : ℝ) :
+    advance tau r v_leak v_threshold (ds.foldl (fun u x => advance tau r v_leak v_threshold u I x) v) I d
+      = advance tau r v_leak v_threshold v I (ds.sum + d) := by
+  rw [record_transparent, ← add]
+
 /-- it solves the documented LIF equation `tau * dv/dt = (v_leak - v) + r*I` -/
 theorem ode (htau : tau ≠ 0) (v I t : ℝ) :
     HasDerivAt (fun s => advance tau r v_leak v_threshold v I s)
